@@ -109,6 +109,20 @@ func RejectCheck(run *core.Run, sc *Scenario, st *RejectStats, slotStride uint64
 					if err := w.Env.ProcessSlots(pre, slot, nil); err != nil {
 						continue
 					}
+					// the block is for the slot the pre-state is already AT (the caller advanced through the empty slots
+					// first): state_transition's process_slots asserts state.slot < block.slot
+					{
+						adv := from.Branch()
+						if e, pm := adv.SlotsReal(ctx, slot); e == nil && pm == "" {
+							atomic.AddInt64(&st.Cases, 1)
+							atomic.AddInt64(&st.Rejected, 1)
+							err, pm := adv.ApplyReal(ctx, sb, true)
+							if pm != "" || err == nil {
+								run.Report("C03/accepted/block-for-the-slot-the-state-is-already-at", fmt.Sprintf("scenario %s, slot %d, base block %q: the pre-state was first advanced to slot %d with ProcessSlots, then StateTransition was given the (valid) block of that same slot: %v %s", sc.Name, slot, pl.Name, slot, err, pm),
+									map[string]interface{}{"engine": "chainx+enumx", "scenario": sc.Name, "slot": slot, "base": pl.Name})
+							}
+						}
+					}
 					for mi := range muts {
 						if run.Expired() {
 							run.CapHit(sc.Name + ": time budget")
